@@ -358,16 +358,24 @@ def run_polling_shard(spec, result):
             times["ended"] = trio.current_time()
 
         async def main():
-            async with trio.open_nursery() as nursery:
-                nursery.start_soon(loop)
-                await trio.sleep(uptime)
-                runner._must_shutdown = True
-                times["requested"] = trio.current_time()
+            # virtual time: a loop that never notices the request would run for ever, so the run is cut after a virtual quarter of an hour
+            with trio.move_on_after(uptime + 900) as scope:
+                async with trio.open_nursery() as nursery:
+                    nursery.start_soon(loop)
+                    await trio.sleep(uptime)
+                    runner._must_shutdown = True
+                    times["requested"] = trio.current_time()
+            times["cut"] = scope.cancelled_caught
 
         trio.run(main, clock=trio.testing.MockClock(autojump_threshold=0))
         result.case(case, key=("polling", delay, uptime))
         result.count("polling_loops_checked")
         result.count("polling_sweeps_observed", len(sweeps))
+        if times.get("cut") or "ended" not in times:
+            clean = {k: v for k, v in spec.items() if k != "only_case"}
+            result.violation("after %.2f s of uptime a shutdown request was never noticed by the polling loop (accept_delay %.3f; given up after 900 virtual seconds)"
+                             % (uptime, delay), case, None, spec=clean, case_id=i)
+            continue
         latency = times["ended"] - times["requested"]
         gaps = [b - a for a, b in zip(sweeps, sweeps[1:])]
         what = None
